@@ -286,3 +286,30 @@ def d3_spans(chk, F):
     chk.expect(ok0 and ok1, "C11.D3-spans", "calc_span", f"{g.file}:{g.line}",
                f"calc_span must return Span::new(off, off + s.len()) with off = s.as_ptr().offset_from(input.as_ptr()); it returns Span::new({t0[:90]}, {t1[:90]})",
                sample=f"{g.file}:{g.line}: Span::new(off, off + s.len()), off = s.as_ptr() − input.as_ptr()")
+    # every span an error carries IS the span of one sub-slice of the input: it comes straight from calc_span, and no other
+    # Span is built in aisle::parse (a span assembled from a start and some other length can leave the input)
+    from cfgq import aggregates
+    others = []
+    for h in F.region_funcs("cooklang::aisle::parse"):
+        if h is g:
+            continue
+        for b, t in h.calls():
+            k = callee_key(t) or ""
+            if k.endswith(("span::Span::new", "span::Span::pos")) or ("span::Span" in k and k.endswith("::from")):
+                others.append(h.where(b))
+    chk.expect(not others, "C11.D3-spans", "parse|spans only from calc_span", others[0] if others else f"{g.file}:{g.line}",
+               f"aisle::parse builds a Span outside calc_span ({others[:2]}): only calc_span's pointer-offset formula keeps an error span inside the input",
+               sample="no Span construction in aisle::parse outside calc_span")
+    errs = aggregates(F, "cooklang::aisle::parse", "aisle::AisleConfError")
+    chk.floor("C11.D3-spans", "error constructions in aisle::parse", len(errs), 4)
+    for ff, i, st, d in errs:
+        for fld, op in d.items():
+            if "span" not in fld:
+                continue
+            e = resolve(ff, op)
+            ok = e[0] == "call" and (e[1] == g.key or "call_once" in e[1] or "Fn::call" in e[1]) or (e[0] == "call" and g.key in leaves(e) and False)
+            if not ok:
+                ok = e[0] == "call" and any(l == "call:" + g.key for l in leaves(e)) and e[1] == g.key
+            chk.expect(ok, "C11.D3-spans", f"parse|{st['rv']['variant']}.{fld}", f"{ff.file}:{st.get('line')}",
+                       f"the {fld} of AisleConfError::{st['rv']['variant']} is {full(e)[:100]}, not the result of calc_span(sub-slice)",
+                       sample=f"{ff.file}:{st.get('line')}: {fld} = calc_span(..)")
